@@ -8,6 +8,7 @@ use bls12_381_plus::elliptic_curve::hash2curve::ExpandMsgXmd;
 use bls12_381_plus::ff::Field;
 use bls12_381_plus::group::Curve;
 use bls12_381_plus::{pairing, G1Affine, G1Projective, G2Affine, G2Projective, Gt, Scalar};
+pub use bls12_381_plus::Scalar as RefScalar;
 use sha2::{Digest, Sha256};
 use sha3::digest::{ExtendableOutput, Update, XofReader};
 use sha3::Shake128;
